@@ -121,6 +121,9 @@ def term_zoo():
     add("NestedCriterion", 3, lambda f: T.NestedCriterion(Equality.eq, Boolean.and_, f[0], f[1], f[2]))
     add("BasicCriterion", 2, lambda f: f[0] == f[1])
     add("BasicCriterion.like", 1, lambda f: f[0].like("x%"))
+    # the pattern / comparison methods of Term with a column where a constant usually stands
+    for _m in ("like", "not_like", "ilike", "not_ilike", "rlike", "regex", "bin_regex", "glob", "eq", "ne", "gt", "gte", "lt", "lte"):
+        add("BasicCriterion.m_%s" % _m, 2, (lambda m: (lambda f: getattr(f[0], m)(f[1])))(_m))
     add("ContainsCriterion", 2, lambda f: f[0].isin([f[1], 2]))
     add("ContainsCriterion.neg", 2, lambda f: f[0].notin([f[1], 2]))
     add("ContainsCriterion.sub", 2, lambda f: f[0].isin(Query.from_(f[1].table).select(f[1])))
